@@ -132,6 +132,9 @@ NewViol == LET e == Ev IN
                              ELSE IF e.api = "Raw" /\ Has(e, "exp") /\ e.exp.outcome = "value" THEN CmdRetViol(e)
                              ELSE Check("C05", "no-panic-no-hang", ~Has(e, "panic") /\ ~Has(e, "hang")))
   ELSE IF e.ev = "session" THEN SessionViol(e)
+  \* the script ran on a connection with a past (GenPast.tla) and the past itself crashed
+  ELSE IF e.ev = "pastBroke" THEN Check("C17", "works-whatever-the-connection-did-before", FALSE)
+                                  \cup Check("C05", "no-panic-no-hang", ~(Has(e, "panic") /\ e.panic # "nil"))
   ELSE IF e.ev \in {"harnessError", "prefixFailed"} THEN Check("HARNESS", e.ev, FALSE)
   ELSE IF e.ev = "metrics" /\ prevM # NoM /\ mcall.kind # "none"
        THEN LET bad == BadKeys(prevM, e.m, mcall) IN
